@@ -248,10 +248,13 @@ def firstNonNil : List Val → Option Nat
   | .ptr none :: xs => (firstNonNil xs).map (· + 1)
   | _ :: _ => some 0
 
-def allNil : List Val → Bool
-  | [] => true
-  | .ptr none :: xs => allNil xs
-  | _ :: _ => false
+/-- the remaining members of a union-like struct are nil pointers (and the encoder's fuel covers
+    them: one unit per member). -/
+def nilRest : Nat → List Kind → List Val → Bool
+  | 0, _, _ => false
+  | _, [], [] => true
+  | fuel + 1, .ptr _ :: ks, .ptr none :: xs => nilRest fuel ks xs
+  | _, _, _ => false
 
 /-- `KeyMaterial.decode`: which member a key format selects. -/
 def keyMaterialIndex (fmt : Nat) : Option Nat :=
@@ -487,20 +490,20 @@ mutual
     | _, [], _, _, _ => none
     | _, _ :: _, _, [], _ => none
     | fuel + 1, k :: ks, tag, x :: xs, ver =>
-      match x with
-      | .ptr none =>
-        (match k with
-         | .ptr _ =>
+      match k with
+      | .ptr k' =>
+        (match x with
+         | .ptr none =>
            (match normSameTag S fuel ks tag xs ver with
             | some (xs', ver') => some (.ptr none :: xs', ver')
             | none => none)
+         | .ptr (some y) =>
+           if nilRest fuel ks xs then
+             (match normK S fuel (.ptr k') tag (.ptr (some y)) ver with
+              | some (x', ver') => some (x' :: xs, ver')
+              | none => none)
+           else none
          | _ => none)
-      | .ptr (some y) =>
-        if allNil xs && xs.length == ks.length && ks.all (fun k => match k with | .ptr _ => true | _ => false) then
-          (match normK S fuel k tag (.ptr (some y)) ver with
-           | some (x', ver') => some (x' :: xs, ver')
-           | none => none)
-        else none
       | _ => none
 end
 
